@@ -171,8 +171,18 @@ fn gen_good(t: &mut Tape) -> Msg {
     }
 }
 
-fn aim(t: &mut Tape, m: Msg, st: &Steer) -> Msg {
+fn aim(t: &mut Tape, m: Msg, st: &Steer, big_left: &mut usize) -> Msg {
     let f = st.free();
+    if *big_left > 0 && t.draw(3) == 0 {
+        *big_left -= 1;
+        let want = match t.draw(4) {
+            0 => 32_768 - 8 + t.draw(16),
+            1 => 65_536 - 8 + t.draw(16),
+            2 => f + 256 * (40 + t.draw(300)) - 2 + t.draw(5),
+            _ => 1_000 + t.draw(90_000),
+        };
+        return m.with_wire_len(want);
+    }
     let want = match t.draw(7) {
         0 => 0,                         // minimal
         1 => f.saturating_sub(1),       // terminator lands on the last byte
@@ -186,7 +196,14 @@ fn aim(t: &mut Tape, m: Msg, st: &Steer) -> Msg {
 }
 
 fn gen_history(t: &mut Tape) -> Vec<Op> {
-    let n = 1 + t.draw(30);
+    // scale swarm: one history in sixteen is long (up to 400 operations on one connection), one
+    // in sixteen carries messages of tens of kilobytes (around 2^15 / 2^16, hundreds of growth steps)
+    let scale = t.draw(64);
+    // (the writer re-serialises from scratch for every 256-byte growth step, so a 90 kB message
+    // costs ~16 MB of serialisation the first time: big histories are rarer and hold at most
+    // three big messages)
+    let mut big_left = if scale >= 62 { 3 } else { 0 };
+    let n = if scale >= 56 && scale < 60 { 40 + t.draw(360) } else { 1 + t.draw(30) };
     let bad_rate = [0usize, 1, 3][t.draw(3)];
     let mut st = Steer { pos: 0, cap: 256 };
     let mut ops = Vec::new();
@@ -201,7 +218,7 @@ fn gen_history(t: &mut Tape) -> Vec<Op> {
             }
         } else {
             let m = gen_good(t);
-            aim(t, m, &st)
+            aim(t, m, &st, &mut big_left)
         };
         let op = match t.draw(5) {
             0 | 1 => Op::Enqueue(msg),
@@ -352,7 +369,7 @@ impl Prop for Outbound {
                 w.pipes[wr].write_err_from = Some(k);
                 w.pipes[wr].write_err_until = Some(k + 1);
             }
-            w.step_cap = 20_000;
+            w.step_cap = 200_000;
             (rd, wr)
         };
         if want_sample || world.borrow().want_sample {
@@ -507,7 +524,7 @@ impl Prop for Outbound {
     }
 
     fn rule(&self) -> String {
-        "Each execution = one history of up to 31 enqueue_call / send_call / send_reply / send_error / flush operations on a real Connection whose write half records every write call. Message sizes are aimed (by a steering model of the buffer) at: minimal, terminator on the last free byte, document ending exactly at the buffer end, one byte over, several 256-byte growth steps over, random. Refused serialisations (tuple map key; a value that errors after k fields, with partial output before and after a growth step) occur at any position. Transport: write suspension, one failing write, flush/send futures abandoned while the write is pending. Systematic part: every free-space value 0..=600 x 7 size/refusal classes. Non-trivial = a refusal, stall, write failure or cancellation actually happened; distinct = distinct event-sequence hash.".into()
+        "Each execution = one history of up to 31 (one in sixteen: up to 400; one in thirty-two: with up to three messages of 1..90 kB around 2^15 / 2^16 and far growth steps) enqueue_call / send_call / send_reply / send_error / flush operations on a real Connection whose write half records every write call. Message sizes are aimed (by a steering model of the buffer) at: minimal, terminator on the last free byte, document ending exactly at the buffer end, one byte over, several 256-byte growth steps over, random. Refused serialisations (tuple map key; a value that errors after k fields, with partial output before and after a growth step) occur at any position. Transport: write suspension, one failing write, flush/send futures abandoned while the write is pending. Systematic part: every free-space value 0..=600 x 7 size/refusal classes. Non-trivial = a refusal, stall, write failure or cancellation actually happened; distinct = distinct event-sequence hash.".into()
     }
 
     fn components(&self) -> Value {
